@@ -86,6 +86,15 @@ type txnResult struct {
 func (im *impl) runTxn(ops []op) txnResult {
 	var res txnResult
 	ut := im.db.NewUpdateTran()
+	// liveness probe through the public API: any read on an ended
+	// transaction panics ("transaction aborted ..." / "already ended")
+	alive := func() bool {
+		if e := lib.Try(func() { ut.Read(im.sc.Tables[0].Name, 0, "", "") }); e != nil {
+			res.AbortMsg = lib.PanicText(e)
+			return false
+		}
+		return true
+	}
 	for _, o := range ops {
 		var r opResult
 		name := im.sc.Tables[o.T].Name
@@ -118,11 +127,14 @@ func (im *impl) runTxn(ops []op) txnResult {
 				strings.Contains(r.Err, "assert failed")
 		}
 		res.Ops = append(res.Ops, r)
+		if r.Err != "" && !alive() {
+			// the failed operation aborted the transaction: the remaining
+			// operations are not issued (they would run on a dead transaction)
+			ut.Abort()
+			return res
+		}
 	}
-	// liveness probe through the public API: any read on an ended
-	// transaction panics ("transaction aborted ..." / "already ended")
-	if e := lib.Try(func() { ut.Read(im.sc.Tables[0].Name, 0, "", "") }); e != nil {
-		res.AbortMsg = lib.PanicText(e)
+	if !alive() {
 		ut.Abort()
 		return res
 	}
